@@ -17,12 +17,13 @@ ASSUME PlistLiteralsOK
 
 Sym == {97, SP, TAB, NL, AT}
 EntryKinds == { <<"File", <<102>>>>, <<"File", <<103, 47, 104>>>>, <<"Ignore">>,
-                <<"Cwd", <<47, 112>>>>, <<"Cwd", <<47, 113, 47>>>>, <<"Cwd", <<47, 233>>>>,
+                <<"Cwd", <<47, 112>>>>, <<"Cwd", <<47, 113, 47>>>>, <<"Cwd", <<47, 233>>>>, <<"Cwd", <<47, 233, 47>>>>,
                 <<"Exec", <<120>>>>, <<"UnExec", <<121>>>>, <<"Mode", <<<<48, 55, 53, 53>>>>>>, <<"Mode", <<>>>>,
                 <<"PkgDir", <<100>>>>, <<"DirRm", <<114>>>>, <<"Name", <<110, 45, 49>>>>, <<"PkgOpt", LitPreserve>>,
                 <<"Comment", <<<<99>>>>>>, <<"PkgDep", <<100, 62, 49>>>>, <<"Display", <<77>>>>, <<"Owner", <<<<111>>>>>> }
 ArgClasses == { <<>>, <<SP>>, <<SP, SP, TAB>>, <<SP, 97, 98>>, <<SP, 195, 169>>, <<SP, 233>>, <<SP, SP, TAB, 97>>,
-                <<SP, 97, SP>>, <<SP>> \o LitPreserve, <<SP>> \o LitPreserve \o <<SP>>, <<TAB, 97>>, <<SP, 97, SP, 98>> }
+                <<SP, 97, SP>>, <<SP>> \o LitPreserve, <<SP>> \o LitPreserve \o <<SP>>, <<TAB, 97>>, <<SP, 97, SP, 98>>,
+                <<SP, VT, 97>>, <<SP, FF, CR, 97>>, <<SP, VT>>, <<SP, CR>>, <<SP, 97, VT>> }
 CmdWords == { CmdTable[i].name : i \in 1..Len(CmdTable) } \cup { <<AT>>, <<AT, 120>>, <<64, 67, 87, 68>>, <<102>>, <<AT, 233>>,
                 <<SP, 64, 99, 119, 100>>, <<64, 99, 119, 100, 120>> }
 
